@@ -323,29 +323,35 @@ pub fn check_reserve(sc: &Scenario, m: &Materialised, txs: &[TxEnv], seq: &Grevm
                     for d in &delta_on {
                         let pre = state.basic(d.address).ok().flatten();
                         let (pb, pn) = pre.as_ref().map(|p| (p.balance, p.nonce)).unwrap_or((U256::ZERO, 0));
+                        let pre_code = pre.as_ref().map(|p| p.code_hash).unwrap_or(revm::primitives::KECCAK_EMPTY);
                         if !d.storage.is_empty() {
                             return Err(format!("tx {i}: forced revert left a storage change on {}", d.address));
                         }
-                        if d.address == sender {
-                            if d.nonce != pn + 1 && !(authorities.contains(&sender) && d.nonce == pn + 2) {
-                                return Err(format!("tx {i}: forced revert: sender nonce {} -> {}", pn, d.nonce));
+                        if d.deleted {
+                            // a touched empty account (e.g. an absent fee recipient touched by a zero
+                            // reward) stays absent; an existing non-empty account must not vanish
+                            if pre.as_ref().map_or(false, |p| !p.is_empty()) {
+                                return Err(format!("tx {i}: forced revert deleted {}", d.address));
                             }
-                            let max_fee = U256::from(tx.gas_limit) * U256::from(tx.gas_price);
-                            let lo = pb.saturating_sub(max_fee);
-                            let hi = if sender == benef { pb.saturating_add(max_fee) } else { pb };
-                            if d.balance < lo || d.balance > hi {
-                                return Err(format!("tx {i}: forced revert: sender balance {pb} -> {} is not a pure fee payment", d.balance));
-                            }
-                        } else if d.address == benef {
-                            if d.balance < pb || d.nonce != pn {
-                                return Err(format!("tx {i}: forced revert: beneficiary changed other than by a credit"));
-                            }
-                        } else if authorities.contains(&d.address) {
-                            if d.balance != pb {
-                                return Err(format!("tx {i}: forced revert: authority {} balance changed", d.address));
-                            }
-                        } else if d.deleted || d.balance != pb || d.nonce != pn || pre.as_ref().map(|p| p.code_hash) != Some(d.code_hash) && !(pre.is_none() && d.code_hash == revm::primitives::KECCAK_EMPTY) {
-                            return Err(format!("tx {i}: forced revert left a change on unrelated account {}: {d:?}", d.address));
+                            continue;
+                        }
+                        // an address may play several roles at once (sender, authority, fee recipient)
+                        let is_sender = d.address == sender;
+                        let is_benef = d.address == benef;
+                        let n_auth = authorities.iter().filter(|a| **a == d.address).count() as u64;
+                        let max_fee = U256::from(tx.gas_limit) * U256::from(tx.gas_price);
+                        let lo_nonce = pn + is_sender as u64;
+                        let hi_nonce = pn + is_sender as u64 + n_auth;
+                        if d.nonce < lo_nonce || d.nonce > hi_nonce {
+                            return Err(format!("tx {i}: forced revert: nonce of {} went {pn} -> {} (allowed {lo_nonce}..={hi_nonce})", d.address, d.nonce));
+                        }
+                        let lo_bal = if is_sender { pb.saturating_sub(max_fee) } else { pb };
+                        let hi_bal = if is_benef { pb.saturating_add(max_fee) } else { pb };
+                        if d.balance < lo_bal || d.balance > hi_bal {
+                            return Err(format!("tx {i}: forced revert: balance of {} went {pb} -> {} which is neither a fee payment nor a fee credit", d.address, d.balance));
+                        }
+                        if d.code_hash != pre_code && n_auth == 0 {
+                            return Err(format!("tx {i}: forced revert changed the code of {} which is not an authority of this transaction", d.address));
                         }
                     }
                     // advance the policy-on prefix with the (validated) committed delta
